@@ -53,6 +53,10 @@ def make_history(case):
     for i, s in enumerate(h["steps"]):
         if i > 0:
             s["sleep_before"] = 3.0
+            if case.get("resume_via_data"):
+                # the resuming process loads the checkpoint itself and hands
+                # the object to FlowSampler(resume_data=...)
+                s["resume_via_data"] = True
     if case.get("resume_after_finish"):
         # the final checkpoint is a checkpoint too: a fresh process restores
         # the finished run and run() is called again
@@ -124,13 +128,17 @@ def judge(case, reports, add, stats):
     if completed:
         classes.append("completed")
         # physical bound on the reported sampling time
-        life = sum((r.get("t_end", 0) - r.get("t_begin", 0)) for r in reports)
+        # each process can have sampled at most from the construction of
+        # its FlowSampler to its end
+        life = sum((r.get("t_end", 0) - ((r.get("data") or {}).get(
+            "t_construct") or r.get("t_begin", 0))) for r in reports)
         ck = (last.get("data") or {}).get("ckpt") or {}
         stime = ck.get("final_sampling_time")
         if stime is not None and len(reports) > 1 and stime > life + 0.5:
             add("sampling-time>process-lifetimes",
-                f"reported {stime:.2f}s, the {len(reports)} processes lived "
-                f"{life:.2f}s in total")
+                f"reported {stime:.2f}s, the {len(reports)} processes can "
+                f"have sampled for {life:.2f}s in total (construction of "
+                f"FlowSampler to process end)")
     if n_cmp:
         classes.append("resume-compared")
     return bool(completed and late), classes, n_cmp
@@ -183,6 +191,10 @@ def run(ctx):
     n = 14 if ctx.quick else 300
     cases = configs.collect(strategy(ctx), ctx.seed, n)
     for i, c in enumerate(cases):
+        if i % 4 == 2:
+            c["resume_via_data"] = True
+            c["labels"] = list(c.get("labels", [])) + [
+                "history:resumed-through-resume_data"]
         if i % 3 == 1:
             c["resume_after_finish"] = True
             c["labels"] = list(c.get("labels", [])) + [
